@@ -279,6 +279,10 @@ func (p *Parser) lookupManipulatorFunc(funcName, optName string, pos token.Pos) 
 		(sig.Results().Len() == 1 && !util.IsErrorType(sig.Results().At(0).Type())) {
 		return nil, logger.Errorf("%v: function %v cannot use for %v func", p.fset.Position(pos), funcName, optName)
 	}
+	if sig.Variadic() {
+		// The additional arguments are passed on one by one; a variadic tail has no counterpart.
+		return nil, logger.Errorf("%v: variadic function %v cannot use for %v func", p.fset.Position(pos), funcName, optName)
+	}
 
 	additionalArgs := make([]types.Type, sig.Params().Len()-2)
 	for i := 0; i < sig.Params().Len()-2; i++ {
